@@ -74,6 +74,9 @@ type c07LCCase struct {
 	Mode  c07LCMode   `json:"mode"`
 	Steps []c07LCStep `json:"steps"`
 	Name  string      `json:"name"`
+	// Burst > 0: the (single) step is made by that many clients at the same moment, each on its own
+	// goroutine as the ingest workers are, all for the same phantom
+	Burst int `json:"burst,omitempty"`
 }
 
 func (m c07LCMode) config() *liveness.Config {
@@ -94,6 +97,9 @@ type c07LCOutcome struct {
 	Announced []int
 	Calls     [][]c07LCCall // calls made during each step
 	Err       string
+	// burst histories: per client
+	BurstUsable []bool
+	BurstAnns   int
 }
 
 func c07LCRun(tb testing.TB, c c07LCCase, ports map[string]int, idx int) c07LCOutcome {
@@ -106,6 +112,61 @@ func c07LCRun(tb testing.TB, c c07LCCase, ports map[string]int, idx int) c07LCOu
 	}
 	spy := &c07LCSpy{inner: real}
 	e.rm.LivenessTester = spy
+	if c.Burst > 0 {
+		st := c.Steps[0]
+		msgs := make([][]byte, c.Burst)
+		secrets := make([][]byte, c.Burst)
+		for i := range msgs {
+			tt := []pb.TransportType{pb.TransportType_Min, pb.TransportType_Prefix, pb.TransportType_Obfs4}[(idx+i)%3]
+			secrets[i] = vSecret(7600 + idx*8 + i)
+			w := vWrapper(secrets[i], tt, 0, "192.0.2.10:443", true, false, 4, 957, pb.RegistrationSource_API, net.ParseIP("198.51.100.7").To4())
+			w.RegistrationResponse = &pb.RegistrationResponse{Ipv4Addr: proto.Uint32(0x7f000001), DstPort: proto.Uint32(uint32(ports[st.Host]))}
+			b, err := proto.Marshal(w)
+			if err != nil {
+				out.Err = err.Error()
+				return out
+			}
+			msgs[i] = b
+		}
+		start := make(chan struct{})
+		errs := make([]string, c.Burst)
+		var wg sync.WaitGroup
+		for i := range msgs {
+			wg.Add(1)
+			go func(i int) {
+				defer wg.Done()
+				<-start
+				regs, err := e.rm.parseRegMessage(msgs[i])
+				if err != nil || len(regs) != 1 {
+					errs[i] = fmt.Sprintf("burst client %d: message not parsed into one registration (%v)", i, err)
+					return
+				}
+				e.rm.ingestRegistration(regs[0])
+			}(i)
+		}
+		close(start)
+		wg.Wait()
+		for _, es := range errs {
+			if es != "" {
+				out.Err = es
+				return out
+			}
+		}
+		for i := range msgs {
+			usable := false
+			for _, r := range e.rm.GetRegistrations(net.ParseIP("127.0.0.1")) {
+				if string(r.(*DecoyRegistration).Keys.SharedSecret) == string(secrets[i]) {
+					usable = true
+				}
+			}
+			out.BurstUsable = append(out.BurstUsable, usable)
+		}
+		out.BurstAnns = len(e.Anns())
+		spy.mu.Lock()
+		out.Calls = [][]c07LCCall{append([]c07LCCall(nil), spy.calls...)}
+		spy.mu.Unlock()
+		return out
+	}
 	seenAnn := 0
 	for k, st := range c.Steps {
 		if st.WaitS > 0 {
@@ -161,6 +222,32 @@ func c07LCDur(s string) time.Duration {
 // c07LCJudge applies the oracle to one history.
 func c07LCJudge(c c07LCCase, o c07LCOutcome) (*c07Viol, map[string]bool) {
 	cl := map[string]bool{"mode:" + c.Mode.Name: true, "history:" + c.Name: true}
+	if c.Burst > 0 {
+		// concurrent clients on one phantom: the host behaves the same for the whole burst, so
+		// every one of them must be judged by that behaviour - whoever did the scanning
+		host := c.Steps[0].Host
+		cl["burst:"+host] = true
+		admitted := 0
+		for _, u := range o.BurstUsable {
+			if u {
+				admitted++
+			}
+		}
+		what := fmt.Sprintf("mode %s, %d clients at the same moment on one phantom whose host is %s", c.Mode.Name, c.Burst, host)
+		if len(o.Calls[0]) != c.Burst {
+			return c07V("probe:count", "%s: %d liveness queries for %d registrations", what, len(o.Calls[0]), c.Burst), cl
+		}
+		if o.BurstAnns != admitted {
+			return c07V("announce:usable-mismatch", "%s: %d usable, %d announced", what, admitted, o.BurstAnns), cl
+		}
+		if host == "silent" && admitted != c.Burst {
+			return c07V("reject:all-conditions-hold", "%s: only %d of %d were admitted although the phantom never answers", what, admitted, c.Burst), cl
+		}
+		if host != "silent" && admitted > 0 {
+			return c07V("admit:phantom-live:concurrent", "%s: %d of %d registrations were admitted (answers: %+v) although the phantom answers every probe: a registration that did not scan itself was given a verdict that no measurement stands behind", what, admitted, c.Burst, o.Calls[0]), cl
+		}
+		return nil, cl
+	}
 	var lastMeasured *c07LCCall
 	for k := range c.Steps {
 		what := fmt.Sprintf("mode %s, history %s, step %d (host %s)", c.Mode.Name, c.Name, k+1, c.Steps[k].Host)
@@ -224,6 +311,9 @@ func c07LCCases() []c07LCCase {
 		// short lifetimes: every step is more than a lifetime after the one before
 		{Name: "live-only-short/map", Live: "250ms"}, {Name: "nonlive-only-short/map", NonLive: "250ms"},
 		{Name: "both-short/lru", Live: "250ms", NonLive: "250ms", LRU: true},
+		// different lifetimes for the two kinds; the *-wait-* histories query at an age between them
+		{Name: "both-nonlive-shorter/map", Live: "4s", NonLive: "300ms"}, {Name: "both-nonlive-shorter/lru", Live: "4s", NonLive: "300ms", LRU: true},
+		{Name: "both-live-shorter/map", Live: "300ms", NonLive: "4s"}, {Name: "both-live-shorter/lru", Live: "300ms", NonLive: "4s", LRU: true},
 	}
 	hist := []struct {
 		name  string
@@ -233,18 +323,24 @@ func c07LCCases() []c07LCCase {
 		{"rst-then-another-client-host-silent", []c07LCStep{{Host: "refused"}, {Host: "silent"}}},
 		{"silent-then-host-comes-up", []c07LCStep{{Host: "silent"}, {Host: "listening"}}},
 		{"live-then-silent-then-live", []c07LCStep{{Host: "listening"}, {Host: "silent", WaitS: 400}, {Host: "refused", WaitS: 400}}},
+		{"silent-wait-host-comes-up", []c07LCStep{{Host: "silent"}, {Host: "listening", WaitS: 700}}},
+		{"live-wait-host-goes-silent", []c07LCStep{{Host: "refused"}, {Host: "silent", WaitS: 700}}},
 	}
 	var out []c07LCCase
 	for _, m := range modes {
 		for _, h := range hist {
 			out = append(out, c07LCCase{Mode: m, Steps: h.steps, Name: h.name})
 		}
+		out = append(out,
+			c07LCCase{Mode: m, Steps: []c07LCStep{{Host: "listening"}}, Name: "burst-on-live-phantom", Burst: 3},
+			c07LCCase{Mode: m, Steps: []c07LCStep{{Host: "refused"}}, Name: "burst-on-rst-phantom", Burst: 2},
+			c07LCCase{Mode: m, Steps: []c07LCStep{{Host: "silent"}}, Name: "burst-on-silent-phantom", Burst: 4})
 	}
 	return out
 }
 
 func TestVerif_C07_livecache(t *testing.T) {
-	rec := vh.NewRec("C07", "livecache", "the station's real CachedLivenessTester (liveness.New, real prober, wrapped by a pass-through recorder) in the modes {no cache, live-only, not-live-only, both} x {map, LRU} plus three modes with 250 ms lifetimes, x histories of 2-3 registrations by different clients on one loopback phantom whose behaviour changes between steps (listening / RST / black hole, selected by the registrar-assigned port; the cache is keyed by address): live then another client; RST then silent; silent then the host comes up; live / silent / RST across lifetime boundaries. Through the real parseRegMessage + ingestRegistration. Oracle: usable and announced <=> the tester answered not live; an answer from the cache repeats the last MEASURED verdict for the address, which is younger than the lifetime of that kind of verdict, and that kind is cached in the mode. Exhaustive over the listed modes x histories. Non-trivial: every history. Real time: about 3 s.")
+	rec := vh.NewRec("C07", "livecache", "the station's real CachedLivenessTester (liveness.New, real prober, wrapped by a pass-through recorder) in the modes {no cache, live-only, not-live-only, both} x {map, LRU} plus three modes with 250 ms lifetimes and four with different lifetimes for the two kinds (queried at an age between them), plus bursts of 2-4 clients released together on one phantom in every mode (none admitted if the host answers, all if it is silent), x histories of 2-3 registrations by different clients on one loopback phantom whose behaviour changes between steps (listening / RST / black hole, selected by the registrar-assigned port; the cache is keyed by address): live then another client; RST then silent; silent then the host comes up; live / silent / RST across lifetime boundaries. Through the real parseRegMessage + ingestRegistration. Oracle: usable and announced <=> the tester answered not live; an answer from the cache repeats the last MEASURED verdict for the address, which is younger than the lifetime of that kind of verdict, and that kind is cached in the mode. Exhaustive over the listed modes x histories. Non-trivial: every history. Real time: about 3 s.")
 	defer rec.Flush()
 	rec.SetExhaustive(true)
 	cases := c07LCCases()
@@ -256,7 +352,8 @@ func TestVerif_C07_livecache(t *testing.T) {
 		cases = []c07LCCase{c}
 	} else {
 		rec.Require("answer:measured", "answer:re-measured", "answer:cached-live", "answer:cached-not-live", "later-client-admitted", "later-client-refused",
-			"mode:none", "mode:live-only/map", "mode:nonlive-only/map", "mode:nonlive-only/lru", "mode:both/lru", "mode:nonlive-only-short/map")
+			"mode:none", "mode:live-only/map", "mode:nonlive-only/map", "mode:nonlive-only/lru", "mode:both/lru", "mode:nonlive-only-short/map",
+			"mode:both-nonlive-shorter/map", "mode:both-live-shorter/lru", "burst:listening", "burst:refused", "burst:silent")
 	}
 	ln, err := net.Listen("tcp", "127.0.0.1:0")
 	if err != nil {
